@@ -49,7 +49,7 @@ func c03Run(c *Ctx) {
 		opts |= flags.HelpFlag
 	}
 	d := GenDecl(c.Sub("d"), c03Cfg(opts))
-	if c.K%17 == 13 {
+	if inHistTail(c, 48000, 2400000) {
 		// options registered late must be consumed, not conserved
 		histCase(c, d, []string{"late-group-on-command", "late-group-on-ancestor", "late-group-in-group"}, []string{"parse", "help"})
 		return
@@ -281,11 +281,11 @@ func init() {
 		Cases: func(tier string) int64 {
 			switch tier {
 			case "thorough":
-				return 2400000
+				return 2400000 + 200000 // + history cases
 			case "race":
 				return 0
 			}
-			return 48000
+			return 48000 + 4000 // + history cases
 		},
 		Run:           c03Run,
 		MinNontrivial: 300,
